@@ -1,5 +1,5 @@
 # replay of a bounded stand-in violation (C16): re-run native/c16_states.py
 import sys
-print('n=2 pure=True cat-complex: quad_expectation(0,0.0) = [-0.02294, 0.594] on bosonic, [-0.02294, 1.93709] on fock')
+print('fock pure=False: run(prog, modes=[2]).state: index i of the returned state is not the i-th requested mode (quadratures [0.632, 0.929] vs [-0.021, -0.033] from the full state)')
 print('REPLAY-VIOLATION')
 sys.exit(1)
